@@ -150,7 +150,7 @@ def main(argv=None):
     # "not-run(budget)" - never as confirmed.
     budget = None
     if args.tier == 'thorough':
-        budget = float(os.environ.get('VERIF_WALL_BUDGET', '1500'))
+        budget = float(os.environ.get('VERIF_WALL_BUDGET', '900'))
         order = list(sel)
     else:
         order = sorted(sel, key=lambda x: (-x[1].get('timeout', 30),
@@ -172,7 +172,7 @@ def main(argv=None):
                 to = ob.get('timeout', 30) * args.scale
                 if budget is not None:
                     to = min(to, float(os.environ.get('VERIF_SLICE_CAP',
-                                                      '900')))
+                                                      '600')))
                 running[ex.submit(run_obligation, mod, args.tier, i, ob,
                                   to * 1.6 + 90)] = (i, ob)
             if not running:
